@@ -87,6 +87,10 @@ pub struct S1Scenario {
     /// Drop the checker handle instead of joining it (the workers must still stop).
     #[serde(default)]
     pub drop_without_join: bool,
+    /// on-demand only: states whose evaluation is requested (one at a time, waiting for quiescence)
+    /// before the checker is told to run to completion
+    #[serde(default)]
+    pub pre_requests: Vec<u16>,
     pub sched: SchedSpec,
 }
 
@@ -246,6 +250,12 @@ fn drive<C: Checker<GModel>>(
         EARLY_ASSERT.with(|f| early_assert(&checker, f));
     }
     if sc.strategy == Strategy::OnDemand {
+        for st in &sc.pre_requests {
+            if let Some(fp) = std::num::NonZeroU64::new(stateright::verif_fingerprint(st)) {
+                checker.check_fingerprint(fp);
+                sched.wait_idle();
+            }
+        }
         checker.run_to_completion();
     }
     for _ in 0..sc.polls {
